@@ -187,6 +187,7 @@ Classify(n, val, loc, pk) ==
             IF DeserFails(val) THEN Cl("jbad", {}, 0, NoDet, loc, UnitRV)
             ELSE Cl("leafok", {}, 0, NoDet, loc, RV("json", FALSE, 0, DZero, "", "", <<BackOf(val)>>))
       [] N.c = "phantom" -> Cl("leafok", {}, 0, NoDet, loc, UnitRV)
+      [] N.c = "cfrom" -> Cl("work", {Ob("inner", 1)}, 0, NoDet, loc, UnitRV)
       [] N.c = "struct" ->
             IF val.t = "map" THEN Cl("work", StructPend(N, 0, val, 0), 0, NoDet, loc, UnitRV)
             ELSE Cl("bad", {}, 0, KindDet(val, {"Map"}), loc, UnitRV)
@@ -206,10 +207,19 @@ Classify(n, val, loc, pk) ==
                  IF vs = {} THEN Cl("bad", {}, 0, Det("unknownvalue", NullV, VariantKeysFrom(N, 1), "", "", val.s, 0, ""), loc, UnitRV)
                  ELSE Cl("leafok", {}, Min(vs), NoDet, loc, RV("variant", FALSE, 0, DZero, "", N.variants[Min(vs)].ident, <<>>))
 
+\* a user function call in flight: k \in from|try|cfrom|ctry|map|validate|missing|deny
+FnP(k, f, ob, arg, loc, fety, fi, id) == [k |-> k, f |-> f, ob |-> ob, arg |-> arg, loc |-> loc, fety |-> fety, fi |-> fi, id |-> id]
+NoFn == FnP("", "", NoOb, UnitRV, <<>>, "E", 0, 0)
+
+StrRV(str) == RV("str", FALSE, 0, DZero, str, "", <<>>)
+StrsRV(ss) == RV("list", FALSE, 0, DZero, "", "", [j \in 1..Len(ss) |-> StrRV(ss[j])])
+LocRV(loc) == RV("loc", FALSE, 0, DZero, "", "", loc)
+
 Frame(n, loc, val, ob, ety, cl) ==
     [n |-> n, loc |-> loc, val |-> val, ob |-> ob, ety |-> ety, ph |-> cl.ph, pend |-> cl.pend, vi |-> cl.vi, det |-> cl.det,
      eloc |-> cl.eloc, okv |-> cl.okv, since |-> {}, brk |-> FALSE, fail |-> FALSE, res |-> <<>>, kidloc |-> <<>>, kidids |-> <<>>,
-     kidety |-> "E", rogue |-> FALSE, parsed |-> <<>>]
+     kidety |-> "E", rogue |-> FALSE, parsed |-> <<>>,
+     fnp |-> NoFn, mapped |-> {}, mres |-> <<>>, vst |-> "none", fv |-> UnitRV, phb |-> cl.ph]
 
 (* ------------------------- children of a frame -------------------------- *)
 IsStructLike(N) == N.c \in {"struct", "enum"}
@@ -239,29 +249,39 @@ SetToSeqByRank(S) == IF S = {} THEN <<>> ELSE LET m == CHOOSE x \in S : \A y \in
 (* ------------------------------ candidates ------------------------------ *)
 \* one shape for all candidate events
 Ev(e, n, loc, ob, det, ans, ok, val, ids, ety) ==
-    [e |-> e, n |-> n, loc |-> loc, ob |-> ob, det |-> det, ans |-> ans, ok |-> ok, val |-> val, ids |-> ids, ety |-> ety]
+    [e |-> e, n |-> n, loc |-> loc, ob |-> ob, det |-> det, ans |-> ans, ok |-> ok, val |-> val, ids |-> ids, ety |-> ety,
+     f |-> "", args |-> <<>>, argk |-> "", k |-> "", fi |-> 0]
+\* call / ret of a user function.  argk says how the observed arguments are compared: "exact" (args), "map" (value of field fi),
+\* "validate" (the finished value and the container location)
+EvCall(f, k, ob, args, argk, fi, loc, ety) ==
+    [Ev("call", 0, loc, ob, NoDet, "", TRUE, UnitRV, <<>>, ety) EXCEPT !.f = f, !.args = args, !.argk = argk, !.k = k, !.fi = fi]
+EvRet(f, ok, ety) == [Ev("ret", 0, <<>>, NoOb, NoDet, "", ok, UnitRV, <<>>, ety) EXCEPT !.f = f]
 Answers == {"c", "b"}
 
 \* the value a frame returns when everything below succeeded (children's values are the observed ones)
 ResOf(F, ob) == LET S == {j \in 1..Len(F.res) : F.res[j].ob = ob} IN F.res[CHOOSE j \in S : \A k \in S : j >= k].v
 HasRes(F, ob) == \E j \in 1..Len(F.res) : F.res[j].ob = ob
 
-FieldValue(F, N, fi) ==
-    \* set of admissible values of field fi: the value of a member routed to it, else its default
+UnmappedFieldValue(F, N, fi) ==
+    \* set of admissible values of field fi before `map`: the value of a member routed to it (after from / try_from), else its default
     LET ms == {j \in 1..Len(F.val.e) : HasRes(F, Ob("entry", j)) /\ Route(N, F.vi, F.val.e[j].k) = fi} IN
     IF ms = {} THEN {FieldsOfNode(N, F.vi)[fi].dval} ELSE {ResOf(F, Ob("entry", j)) : j \in ms}
+FieldValue(F, N, fi) ==
+    \* ... and after `map`: what the function returned
+    IF fi \in F.mapped THEN {F.mres[CHOOSE j \in 1..Len(F.mres) : F.mres[j].fi = fi].v} ELSE UnmappedFieldValue(F, N, fi)
 
 \* does the observed success value v agree with what frame F must return?  (sets and maps are compared as sets)
 ValueAgrees(F, v) ==
     LET N == Nodes[F.n] IN
-    CASE F.ph = "leafok" ->
+    CASE F.vst = "ok" -> v = F.fv                       \* what `validate` returned is what ends up in the result
+      [] F.ph = "leafok" ->
             IF N.c = "scalar" /\ Cls(N.name) = "float" THEN v.r = "float" ELSE v = F.okv
       [] N.c \in {"vec", "arr", "tup"} ->
             v.r = "list" /\ Len(v.e) = Len(F.val.e) /\ \A i \in 1..Len(v.e) : v.e[i] = ResOf(F, Ob("elem", i))
       [] N.c \in {"hset", "bset"} ->
             v.r = "set" /\ SeqToSet(v.e) = {ResOf(F, Ob("elem", i)) : i \in 1..Len(F.val.e)} /\ Cardinality(SeqToSet(v.e)) = Len(v.e)
       [] N.c = "opt" -> v.r = "some" /\ v.e = <<ResOf(F, Ob("inner", 1))>>
-      [] N.c = "box" -> v = ResOf(F, Ob("inner", 1))
+      [] N.c \in {"box", "cfrom"} -> v = ResOf(F, Ob("inner", 1))      \* cfrom: what the conversion function returned
       [] N.c \in {"hmap", "bmap"} ->
             LET pkey(j) == F.parsed[j] IN
             /\ v.r = "map"
@@ -287,24 +307,51 @@ StartOf(F, ob, pk) ==
                  ELSE {Ev("err", 0, F.loc, ob, Det("unexpected", NullV, {}, "", "", "", 0, m.k), a, TRUE, UnitRV, <<>>, F.ety) : a \in Answers}
             ELSE IF ch.has
                  THEN {Ev("enter", ch.n, ch.loc, ob, NoDet, "", TRUE, UnitRV, <<>>, ch.ety)}
+                 ELSE IF N.deny = "fn"
+                 THEN {EvCall(N.denyfn, "deny", ob, <<StrRV(m.k), StrsRV(Accepted(N, F.vi)), LocRV(F.loc)>>, "exact", 0, F.loc, F.ety)}
                  ELSE {Ev("err", 0, F.loc, ob, Det("unknownkey", NullV, Accepted(N, F.vi), "", m.k, "", 0, ""), a, TRUE, UnitRV, <<>>, F.ety) : a \in Answers}
       [] ob.o = "missing" ->
-            {Ev("err", 0, F.loc, ob, Det("missing", NullV, {}, EffKey(N, F.vi, ob.i), "", "", 0, ""), a, TRUE, UnitRV, <<>>, F.ety) : a \in Answers}
+            IF FieldsOfNode(N, F.vi)[ob.i].missfn # ""
+            THEN {EvCall(FieldsOfNode(N, F.vi)[ob.i].missfn, "missing", ob, <<StrRV(EffKey(N, F.vi, ob.i)), LocRV(F.loc)>>, "exact", 0, F.loc, F.ety)}
+            ELSE {Ev("err", 0, F.loc, ob, Det("missing", NullV, {}, EffKey(N, F.vi, ob.i), "", "", 0, ""), a, TRUE, UnitRV, <<>>, F.ety) : a \in Answers}
       [] OTHER -> {}
 
 PassThrough(N) == N.c \in {"opt", "box"}
 
+\* what remains to be done by a frame whose obligations all succeeded: `map` on every field that has one (any order),
+\* then `validate`, then return
+PostSteps(F) ==
+    LET N == Nodes[F.n]
+        fs == FieldsOfNode(N, F.vi)
+        mp == IF IsStructLike(N) /\ (N.c = "struct" \/ F.vi > 0) THEN {fi \in 1..Len(fs) : fs[fi].mapfn # "" /\ fi \notin F.mapped} ELSE {}
+    IN IF mp # {} THEN {EvCall(fs[fi].mapfn, "map", NoOb, <<>>, "map", fi, F.loc, F.ety) : fi \in mp}
+       ELSE IF N.validate /\ F.vst = "none" THEN {EvCall(N.vfn, "validate", NoOb, <<>>, "validate", 0, F.loc, F.ety)}
+       ELSE {Ev("exit", F.n, F.loc, F.ob, NoDet, "", TRUE, F.okv, <<>>, F.ety)}
+
+CanFail(k) == k \in {"try", "ctry", "validate"}
+AlwaysErr(k) == k \in {"missing", "deny"}
+
 Candidates(stack, cur) ==
     IF Len(stack) = 0 THEN {}
     ELSE LET F == stack[Len(stack)] N == Nodes[F.n] IN
-    CASE F.ph = "leafok" -> {Ev("exit", F.n, F.loc, F.ob, NoDet, "", TRUE, F.okv, <<>>, F.ety)}
+    CASE F.ph = "leafok" -> PostSteps(F)
       [] F.ph = "bad"    -> {Ev("err", 0, F.eloc, NoOb, F.det, a, TRUE, UnitRV, <<>>, F.ety) : a \in Answers}
       [] F.ph = "fin"    -> {Ev("exit", F.n, F.loc, F.ob, NoDet, "", FALSE, UnitRV, <<>>, F.ety)}
       [] F.ph = "merge"  -> {Ev("mrg", 0, F.kidloc, NoOb, NoDet, a, TRUE, UnitRV, F.kidids, F.ety) : a \in Answers}
       [] F.ph = "jbad"   -> {Ev("err", 0, F.loc, NoOb, Det("unexpected", NullV, {}, "", "", "", 0, ""), a, TRUE, UnitRV, <<>>, F.ety) : a \in Answers}
+      [] F.ph = "tocall" -> {EvCall(F.fnp.f, F.fnp.k, F.fnp.ob, <<F.fnp.arg>>, "exact", 0, F.fnp.loc, F.ety)}
+      [] F.ph = "fncall" -> (IF AlwaysErr(F.fnp.k) THEN {} ELSE {EvRet(F.fnp.f, TRUE, F.ety)})
+                            \cup (IF CanFail(F.fnp.k) \/ AlwaysErr(F.fnp.k) THEN {EvRet(F.fnp.f, FALSE, F.ety)} ELSE {})
+      \* a failed field try_from: its error is first merged under the FIELD's error type, then handed to the container's
+      [] F.ph = "fnm1"   -> {Ev("mrg", 0, F.fnp.loc, NoOb, NoDet, a, TRUE, UnitRV, <<F.fnp.id>>, F.fnp.fety) : a \in Answers}
+      [] F.ph = "fnm2"   -> {Ev("mrg", 0, F.fnp.loc, NoOb, NoDet, a, TRUE, UnitRV, <<F.fnp.id>>, F.ety) : a \in Answers}
+      \* custom missing / unknown handlers: their error is merged at the container's location
+      [] F.ph = "fnmA"   -> {Ev("mrg", 0, F.loc, NoOb, NoDet, a, TRUE, UnitRV, <<F.fnp.id>>, F.ety) : a \in Answers}
+      \* validate / container try_from: merged at the container's location, the call fails whatever the answer
+      [] F.ph = "fnm0"   -> {Ev("mrg", 0, F.loc, NoOb, NoDet, a, TRUE, UnitRV, <<F.fnp.id>>, F.ety) : a \in Answers}
       [] F.ph = "work"   ->
             IF F.brk THEN {Ev("exit", F.n, F.loc, F.ob, NoDet, "", FALSE, UnitRV, <<>>, F.ety)}
-            ELSE IF F.pend = {} THEN {Ev("exit", F.n, F.loc, F.ob, NoDet, "", ~F.fail, UnitRV, <<>>, F.ety)}
+            ELSE IF F.pend = {} THEN (IF F.fail THEN {Ev("exit", F.n, F.loc, F.ob, NoDet, "", FALSE, UnitRV, <<>>, F.ety)} ELSE PostSteps(F))
             ELSE LET obs == IF cur.canonical THEN {CHOOSE ob \in F.pend : \A o2 \in F.pend : ObLeq(ob, o2)} ELSE F.pend
                  IN UNION {StartOf(F, ob, cur.pk) : ob \in obs}
       [] OTHER -> {}
@@ -342,12 +389,46 @@ AfterMrg(stack, a) == SetTop(stack, [Top(stack) EXCEPT !.ph = "work", !.fail = T
 AfterExit(stack, ok, v, ids) ==
     LET F == Top(stack) rest == Pop(stack) IN
     IF Len(rest) = 0 THEN rest
-    ELSE LET P == Top(rest) PN == Nodes[P.n] IN
+    ELSE LET P == Top(rest) PN == Nodes[P.n]
+             fi == IF IsStructLike(PN) /\ F.ob.o = "entry" THEN Route(PN, P.vi, P.val.e[F.ob.i].k) ELSE 0
+             fld == IF fi > 0 THEN FieldsOfNode(PN, P.vi)[fi] ELSE [frm |-> "none", fn |-> "", ety |-> "E"]
+         IN
          SetTop(rest,
-            IF ok THEN [P EXCEPT !.res = Append(@, [ob |-> F.ob, v |-> v])]
-            ELSE IF PassThrough(PN) THEN [P EXCEPT !.ph = "fin", !.fail = TRUE]
+            IF ok THEN
+                 IF fld.frm # "none" THEN [P EXCEPT !.ph = "tocall", !.fnp = FnP(fld.frm, fld.fn, F.ob, v, F.loc, fld.ety, fi, 0)]
+                 ELSE IF PN.c = "cfrom" THEN [P EXCEPT !.ph = "tocall", !.fnp = FnP(IF PN.cfrom = "try" THEN "ctry" ELSE "cfrom", PN.cfn, F.ob, v, P.loc, P.ety, 0, 0)]
+                 ELSE [P EXCEPT !.res = Append(@, [ob |-> F.ob, v |-> v])]
+            ELSE IF PassThrough(PN) \/ PN.c = "cfrom" THEN [P EXCEPT !.ph = "fin", !.fail = TRUE]
             ELSE [P EXCEPT !.ph = "merge", !.kidloc = F.loc, !.kidids = ids, !.kidety = F.ety, !.fail = TRUE])
 
+\* a user function is called (c: the call candidate)
+AfterCall(stack, c) ==
+    LET F == Top(stack) IN
+    SetTop(stack, IF F.ph = "tocall" THEN [F EXCEPT !.ph = "fncall"]
+                  ELSE [F EXCEPT !.ph = "fncall", !.pend = @ \ {c.ob}, !.fnp = FnP(c.k, c.f, c.ob, UnitRV, c.loc, F.ety, c.fi, 0)])
+
+\* ... and returns (ok with value v, or an error that will become report `id` when it is merged)
+AfterRet(stack, ok, v, id) ==
+    LET F == Top(stack) k == F.fnp.k IN
+    SetTop(stack,
+        IF ok THEN
+            CASE k \in {"from", "try", "cfrom", "ctry"} -> [F EXCEPT !.ph = "work", !.res = Append(@, [ob |-> F.fnp.ob, v |-> v])]
+              [] k = "map"      -> [F EXCEPT !.ph = F.phb,
+                                             !.mapped = @ \cup {F.fnp.fi}, !.mres = Append(@, [fi |-> F.fnp.fi, v |-> v])]
+              [] k = "validate" -> [F EXCEPT !.ph = F.phb, !.vst = "ok", !.fv = v]
+              [] OTHER -> F
+        ELSE
+            CASE k = "try" -> [F EXCEPT !.ph = "fnm1", !.fnp = [@ EXCEPT !.id = id]]
+              [] k \in {"ctry", "validate"} -> [F EXCEPT !.ph = "fnm0", !.fnp = [@ EXCEPT !.id = id]]
+              [] OTHER -> [F EXCEPT !.ph = "fnmA", !.fnp = [@ EXCEPT !.id = id]])
+
+\* the merges that follow a failed user function
+AfterFnMrg(stack, a) ==
+    LET F == Top(stack) IN
+    CASE F.ph = "fnm1" -> SetTop(AddSince(stack, F.fnp.id), [Top(AddSince(stack, F.fnp.id)) EXCEPT !.ph = "fnm2", !.fail = TRUE, !.brk = (a = "b")])
+      [] F.ph = "fnm2" -> SetTop(stack, [F EXCEPT !.ph = "work", !.fail = TRUE, !.brk = (F.brk \/ a = "b")])
+      [] F.ph = "fnmA" -> SetTop(AddSince(stack, F.fnp.id), [Top(AddSince(stack, F.fnp.id)) EXCEPT !.ph = "work", !.fail = TRUE, !.brk = (a = "b")])
+      [] F.ph = "fnm0" -> SetTop(AddSince(stack, F.fnp.id), [Top(AddSince(stack, F.fnp.id)) EXCEPT !.ph = "fin", !.fail = TRUE])
 
 (* ------------------- declarative reference semantics -------------------- *)
 \* Faults(n, val, loc): the reports a keep-going error type must receive, as a sequence (compared as a bag).
@@ -364,27 +445,41 @@ DescOfDet(det, loc) ==
 RECURSIVE Flatten(_)
 Flatten(ss) == IF Len(ss) = 0 THEN <<>> ELSE ss[1] \o Flatten(SubSeq(ss, 2, Len(ss)))
 
-RECURSIVE Faults(_, _, _, _)
-Faults(n, val, loc, pk) ==
-    LET N == Nodes[n] cl == Classify(n, val, loc, pk) IN
-    CASE cl.ph = "bad"    -> <<DescOfDet(cl.det, cl.eloc)>>
-      [] cl.ph = "leafok" -> <<>>
-      [] cl.ph = "jbad"   -> <<Desc("unexpected", loc, "", 0, NullV, {})>>      \* at least one; refined by the monitor
-      [] cl.ph = "work"   ->
-            LET F == Frame(n, loc, val, NoOb, "E", cl)
-                one(ob) ==
-                    LET ch == Child(F, ob) IN
-                    CASE ob.o \in {"elem", "inner"} -> Faults(ch.n, ch.val, ch.loc, pk)
-                      [] ob.o = "entry" ->
-                            IF IsMapTarget(N)
-                            THEN IF ParseKey(pk, N.name, val.e[ob.i].k).z = "some" THEN Faults(ch.n, ch.val, ch.loc, pk)
-                                 ELSE <<Desc("unexpected", loc, "", 0, NullV, {})>>
-                            ELSE IF ch.has THEN Faults(ch.n, ch.val, ch.loc, pk)
-                                 ELSE <<Desc("unknownkey", loc, val.e[ob.i].k, 0, NullV, SeqToSet(Accepted(N, cl.vi)))>>
-                      [] ob.o = "missing" -> <<Desc("missing", loc, EffKey(N, cl.vi, ob.i), 0, NullV, {})>>
-                      [] OTHER -> <<>>
-                order == SetToSeqByRank(cl.pend)
-            IN Flatten([j \in 1..Len(order) |-> one(order[j])])
-      [] OTHER -> <<>>
-
+\* fnf: the user-function failures of the run (environment facts): set of [f, loc]
+FnDesc(f, loc) == Desc("fn", loc, f, 0, NullV, {})
+RECURSIVE Faults(_, _, _, _, _)
+Faults(n, val, loc, pk, fnf) ==
+    LET N == Nodes[n] cl == Classify(n, val, loc, pk)
+        base ==
+          CASE cl.ph = "bad"    -> <<DescOfDet(cl.det, cl.eloc)>>
+            [] cl.ph = "leafok" -> <<>>
+            [] cl.ph = "jbad"   -> <<Desc("unexpected", loc, "", 0, NullV, {})>>      \* at least one; refined by the monitor
+            [] cl.ph = "work"   ->
+                  LET F == Frame(n, loc, val, NoOb, "E", cl)
+                      one(ob) ==
+                          LET ch == Child(F, ob) IN
+                          CASE ob.o \in {"elem", "inner"} -> Faults(ch.n, ch.val, ch.loc, pk, fnf)
+                            [] ob.o = "entry" ->
+                                  IF IsMapTarget(N)
+                                  THEN IF ParseKey(pk, N.name, val.e[ob.i].k).z = "some" THEN Faults(ch.n, ch.val, ch.loc, pk, fnf)
+                                       ELSE <<Desc("unexpected", loc, "", 0, NullV, {})>>
+                                  ELSE IF ch.has
+                                       THEN LET inner == Faults(ch.n, ch.val, ch.loc, pk, fnf)
+                                                fld == FieldsOfNode(N, cl.vi)[Route(N, cl.vi, val.e[ob.i].k)]
+                                            IN IF inner # <<>> THEN inner
+                                               \* a conversion only runs on a good intermediate value; its failure is one report at the field
+                                               ELSE IF fld.frm = "try" /\ [f |-> fld.fn, loc |-> ch.loc] \in fnf THEN <<FnDesc(fld.fn, ch.loc)>>
+                                               ELSE <<>>
+                                       ELSE IF N.deny = "fn" THEN <<FnDesc(N.denyfn, loc)>>
+                                       ELSE <<Desc("unknownkey", loc, val.e[ob.i].k, 0, NullV, SeqToSet(Accepted(N, cl.vi)))>>
+                            [] ob.o = "missing" ->
+                                  IF FieldsOfNode(N, cl.vi)[ob.i].missfn # "" THEN <<FnDesc(FieldsOfNode(N, cl.vi)[ob.i].missfn, loc)>>
+                                  ELSE <<Desc("missing", loc, EffKey(N, cl.vi, ob.i), 0, NullV, {})>>
+                            [] OTHER -> <<>>
+                      order == SetToSeqByRank(cl.pend)
+                  IN Flatten([j \in 1..Len(order) |-> one(order[j])])
+            [] OTHER -> <<>>
+        \* a container-level try_from runs only when its input deserialized; validate only when everything before succeeded
+        withc == IF base = <<>> /\ N.c = "cfrom" /\ N.cfrom = "try" /\ [f |-> N.cfn, loc |-> loc] \in fnf THEN <<FnDesc(N.cfn, loc)>> ELSE base
+    IN IF withc = <<>> /\ N.validate /\ [f |-> N.vfn, loc |-> loc] \in fnf THEN <<FnDesc(N.vfn, loc)>> ELSE withc
 =============================================================================
